@@ -94,7 +94,18 @@ class LifecycleRecorder:
         try:
             fn(*args, self.world.next_seq())
         except L.Inconsistent as exc:
-            self.world.fail(Violation(exc.clause, exc.message + (f"\n detail: {detail}" if detail else ""), key=f"C18/{self.harness}/model/{exc.site}{site_suffix}"))
+            self.fail(Violation(exc.clause, exc.message + (f"\n detail: {detail}" if detail else ""), key=f"C18/{self.harness}/model/{exc.site}{site_suffix}"))
+
+    def fail(self, v: Violation) -> None:
+        """threaded runs: stop the world at the violation (the scheduler freezes the trace and releases every thread; the main
+        thread re-raises) instead of letting the other threads run on until the main thread notices"""
+        sched = self.sched
+        if sched is not None and sched.active and not sched.aborting:
+            if self.world.fatal is None:
+                self.world.fatal = v
+            sched.abort(v)
+            raise v
+        self.world.fail(v)
 
     def invoke(self, actor: str, kind: str) -> int:
         sched = self.sched
@@ -787,7 +798,7 @@ class ThreadRun:
             return
         still = sorted(s.label for s in self.server_sockets() if not s.sim_closed)
         if still:
-            self.world.fail(Violation("listeners-closed-after-server_close", f"server_close() returned, no serve_forever can be running any more, but sockets {still} created by the server are still open; history: {self.rec.model.history[-30:]}", key=f"C18/{self.harness}/listeners-open-after-close"))
+            self.rec.fail(Violation("listeners-closed-after-server_close", f"server_close() returned, no serve_forever can be running any more, but sockets {still} created by the server are still open; history: {self.rec.model.history[-30:]}", key=f"C18/{self.harness}/listeners-open-after-close"))
 
     # -------------------------------------------------- client
     def do_client(self) -> str:
@@ -831,7 +842,7 @@ class ThreadRun:
         self.rec._live()
         self.current.pop(actor, None)
         if got is not None and got != expected:
-            self.world.fail(Violation("client-gets-the-right-answer", f"client {n} sent {request!r} and received {got!r}", key=f"C18/{self.harness}/wrong-answer"))
+            self.rec.fail(Violation("client-gets-the-right-answer", f"client {n} sent {request!r} and received {got!r}", key=f"C18/{self.harness}/wrong-answer"))
         outcome = L.SERVED if got == expected else L.FAILED
         self.rec.ret(actor, opid, outcome)
         return outcome
@@ -874,7 +885,7 @@ class ThreadRun:
             info["start_returned"] = True
             self.world.log("nst", name, "start-returned")
             if name not in self.up_actors and name not in self.ret_actors:
-                self.world.fail(Violation("NetworkServerThread.start-waits-until-the-server-is-up", f"NetworkServerThread.start() of {name} returned but its serve_forever has neither signalled 'up' nor ended; history: {self.rec.model.history[-20:]}", key=f"C18/{self.harness}/nst/start-returned-before-up"))
+                self.rec.fail(Violation("NetworkServerThread.start-waits-until-the-server-is-up", f"NetworkServerThread.start() of {name} returned but its serve_forever has neither signalled 'up' nor ended; history: {self.rec.model.history[-20:]}", key=f"C18/{self.harness}/nst/start-returned-before-up"))
             return t
 
         def target() -> None:
@@ -906,6 +917,7 @@ class ThreadRun:
         self.world.log("nst", me, "join", name, -1.0 if timeout is None else timeout)
         self.current[me] = f"join#{name}"
         t0 = self.world.now
+        c0 = self.world.creep_iterations
         # Untimed join of a thread whose server is not up yet (or is already over) may legitimately wait for somebody else's
         # shutdown (shutdown of a server that is not running is a no-op): then the epilogue may help.  When the server IS up, join()
         # must stop it by itself.
@@ -923,7 +935,7 @@ class ThreadRun:
             if not started and "before it is started" in str(exc):
                 self.world.log("nst", me, "join-not-started")
                 return
-            self.world.fail(Violation("NetworkServerThread.join-contract", f"join({timeout}) of {name} raised RuntimeError: {exc}", key=f"C18/{self.harness}/nst/join-raises"))
+            self.rec.fail(Violation("NetworkServerThread.join-contract", f"join({timeout}) of {name} raised RuntimeError: {exc}", key=f"C18/{self.harness}/nst/join-raises"))
         self.rec._live()
         self.current.pop(me, None)
         elapsed = self.world.now - t0
@@ -932,12 +944,18 @@ class ThreadRun:
         self.world.progress(1)
         if timeout is None:
             if not ended or info["t"].is_alive():
-                self.world.fail(Violation("NetworkServerThread.join-returns-after-the-thread-ended", f"join() of {name} returned but the thread has not ended (finished={ended}, is_alive={info['t'].is_alive()}); history: {self.rec.model.history[-20:]}", key=f"C18/{self.harness}/nst/join-returned-early"))
+                self.rec.fail(Violation("NetworkServerThread.join-returns-after-the-thread-ended", f"join() of {name} returned but the thread has not ended (finished={ended}, is_alive={info['t'].is_alive()}); history: {self.rec.model.history[-20:]}", key=f"C18/{self.harness}/nst/join-returned-early"))
         else:
-            if elapsed > timeout + 1e-9:
-                self.world.fail(Violation("NetworkServerThread.join-timeout-is-a-total-budget", f"join({timeout}) of {name} took {elapsed} virtual seconds (the time taken by shutdown() must be subtracted)", key=f"C18/{self.harness}/nst/join-timeout-exceeded"))
+            # shutdown(timeout) takes the bootstrap lock without a timeout: a serve_forever in its activation window (name resolution
+            # delay) can hold it for that long; nothing else takes virtual time
+            slack = 2 * self.backend.getaddrinfo_delay
+            # virtual CPU time (DESIGN 2.1): a loop that spins (cancelled scope around a shielded tear-down) lets the clock creep,
+            # possibly while this thread is runnable but not scheduled: such time is not the callee's
+            slack += (self.world.creep_iterations - c0) * self.world.CREEP
+            if elapsed > timeout + slack + 1e-9:
+                self.rec.fail(Violation("NetworkServerThread.join-timeout-is-a-total-budget", f"join({timeout}) of {name} took {elapsed} virtual seconds (the time taken by shutdown() must be subtracted)", key=f"C18/{self.harness}/nst/join-timeout-exceeded"))
             if elapsed < timeout - 1e-9 and not ended:
-                self.world.fail(Violation("NetworkServerThread.join-returns-after-the-thread-ended", f"join({timeout}) of {name} returned after {elapsed} s < timeout although the thread has not ended; history: {self.rec.model.history[-20:]}", key=f"C18/{self.harness}/nst/join-returned-early"))
+                self.rec.fail(Violation("NetworkServerThread.join-returns-after-the-thread-ended", f"join({timeout}) of {name} returned after {elapsed} s < timeout although the thread has not ended; history: {self.rec.model.history[-20:]}", key=f"C18/{self.harness}/nst/join-returned-early"))
 
     def caller(self, idx: int) -> None:
         import time
@@ -989,7 +1007,7 @@ class ThreadRun:
     # -------------------------------------------------- main thread = epilogue actor
     def no_progress(self, what: str) -> None:
         pend = ", ".join(f"{a}:{c}" for a, c in sorted(self.current.items()))
-        self.world.fail(
+        self.rec.fail(
             Violation(
                 "no-call-hangs",
                 f"{what} did not finish within {CALL_BOUND} virtual seconds although no further call was pending; calls in progress: [{pend}]; model states {self.rec.model.possible_states()}; history: {self.rec.model.history[-30:]}",
@@ -1073,7 +1091,7 @@ class ThreadRun:
         self.srv.is_serving()
         leaked = sorted(s.label for s in self.server_sockets() if not s.sim_closed)
         if leaked:
-            self.world.fail(Violation("listeners-closed-after-server_close", f"sockets created by the server are still open after server_close() and after every serve_forever has returned: {leaked}; history: {self.rec.model.history[-30:]}", key=f"C18/{self.harness}/socket-leak-at-end"))
+            self.rec.fail(Violation("listeners-closed-after-server_close", f"sockets created by the server are still open after server_close() and after every serve_forever has returned: {leaked}; history: {self.rec.model.history[-30:]}", key=f"C18/{self.harness}/socket-leak-at-end"))
         for info in self.nsts:  # the helper's own join(): one more shutdown, then the thread must be over
             self.join_nst(None, None, info)
         for t in callers + self.bg:
